@@ -119,6 +119,8 @@ def case(g, tier, ci):
         ops += o
         infos[sid] = info
     bad = r.random()
+    if ci % 20 == 7:
+        bad = 0.14           # every twentieth case has an inconsistent right operand
     if bad < 0.08:
         ops.append({"op": "sq.setOff", "id": r.choice("ab"), "ch": chans[0], "v": enc(0.5)})
     elif bad < 0.12:
@@ -128,6 +130,9 @@ def case(g, tier, ci):
         eid = g.fresh("e")
         ops += SeqGen(g).element(eid, SR, 8, list(chans), raw_p=0.0, markers=False, seg_markers=False)
         ops.append({"op": "sq.addElement", "id": "b", "pos": Ps[1] + 2, "el": eid})
+        if ci % 2 == 0:
+            # ... and one at position 0: the highest position equals the number of entries again
+            ops.append({"op": "sq.addElement", "id": "b", "pos": 0, "el": eid})
     ops += [{"op": "sq.desc", "id": "a", "_tag": "a0"}, {"op": "sq.desc", "id": "b", "_tag": "b0"}]
     ops += [{"op": "sq.add", "a": "a", "b": "b", "to": "ab", "_errclass": True, "_tag": "add"},
             {"op": "sq.desc", "id": "ab", "_tag": "ab"},
